@@ -83,7 +83,11 @@ class Lay:
             if not out:
                 self.flags.add('gap-opened')
             # str.splitlines() also breaks at \r\n, \r, form feed, \x1c-\x1e, \x85: the lines are re-joined with \n
-            out = out + self.rng.choice(['\n', '\n', '\n', '\r\n', '\x0c', '\r', '\x85', '\x1d']) + self.rng.choice(['    ', '\t', ' '])
+            nlc = self.rng.choice(['\n', '\n', '\n', '\r\n', '\x0c', '\r', '\x85', '\x1d'])
+            if self.rng.random() < 0.15:
+                # a comment at the end of a non-final continuation line (with brackets in it), a blank or comment-only line inside the brackets
+                nlc = self.rng.choice(['  # c (\n', ' # note )\n', '\n\n', '\n   \n', '\n  # note\n', '\n#(\n'])
+            out = out + nlc + self.rng.choice(['    ', '\t', ' '])
         return out
 
     def free(self):
@@ -140,7 +144,11 @@ class Lay:
         if k == 'verb':
             return '`' + t[1] + '`'
         if k == 'neg':
-            return '-' + self.atom(t[1])
+            sp = ''
+            if self.on('ws', 0.3):
+                sp = ' '
+                self.flags.add('gap-opened')
+            return '-' + sp + self.atom(t[1])
         if k == 'par':
             return self.paren(t[1])
         if k == 'bin':
@@ -148,7 +156,7 @@ class Lay:
         if k == 'call':
             self.depth += 1
             inner = (',' + self.gap()).join(self.expr(a) for a in t[2])
-            s = t[1] + (' ' if self.on('call', 0.4) else '') + '(' + self.free() + inner + self.free() + ')'
+            s = t[1] + (self.rng.choice([' ', ' ', '\t', '  ', ' \t']) if self.on('call', 0.4) else '') + '(' + self.free() + inner + self.free() + ')'
             self.depth -= 1
             return s
         if k == 'if':
@@ -175,8 +183,12 @@ class Lay:
         return '[' + body + ']'
 
     def statement(self, y, ly, lhs_explicit, tree):
-        show = ly != 0 or lhs_explicit or self.on('zero', 0.3)
-        lhs = y + (self.lhs_index(ly) if show else '')
+        show = ly != 0 or lhs_explicit or self.on('zero', 0.3) or 'sbl' in self.feats
+        pre = ''
+        if 'sbl' in self.feats:
+            pre = ' '
+            self.flags.add('space-before-lhs-index')
+        lhs = y + ((pre + self.lhs_index(ly)) if show else '')
         return lhs + self.gap() + '=' + self.gap() + self.expr(tree)
 
 
@@ -207,12 +219,15 @@ def gen_meta(rng, feats, strict, perm=False):
         if 'blank' in feats and rng.random() < 0.4:
             lines.append(rng.choice(['', '   ', '\t', '# a comment line', '#', '   # indented comment']))
         if 'comment' in feats and rng.random() < 0.5:
-            st = st + rng.choice(['  # trailing', '#c', ' #', '\t# x = 1', '  # a # b', ' ## Z = 1'])
+            st = st + rng.choice(['  # trailing', '#c', ' #', '\t# x = 1', '  # a # b', ' ## Z = 1', '  # see (1', ' # )', ' # `x`', '# (a, b', ' # {a}'])
+        elif 'ws' in feats and rng.random() < 0.1:
+            st = st + rng.choice(['  ', '\t', ' '])           # trailing blanks without a comment
         lines.append(st)
     if 'blank' in feats and rng.random() < 0.3:
         lines.append(rng.choice(['', '# end']))
     flags = set(var_lay.flags)
-    return {'k': 'meta', 'stmts': stmts, 'var': '\n'.join(lines), 'strict': bool(strict and 'gap-opened' not in flags),
+    sep = '\r\n' if ('blank' in feats and rng.random() < 0.15) else '\n'
+    return {'k': 'meta', 'stmts': stmts, 'var': sep.join(lines), 'strict': bool(strict and 'gap-opened' not in flags),
             'feats': sorted(feats), 'flags': sorted(flags - {'gap-opened'}), 'perm': order, 'skipfix': skipfix}
 
 
@@ -225,6 +240,19 @@ FIXED = [
     {'k': 'fence', 'stmts': ['Y = X', '```\nfoo = 1']},
     {'k': 's', 's': 'Y[=1]'},
     {'k': 's', 's': 'b = {as} * X'},
+    # independent review: duplicate statement re-spaced, literal braces, blank before the left-hand index bracket, "#" inside quotes
+    {'k': 'meta', 'stmts': ['Y = X', 'Y = X'], 'var': 'Y = X\nY=X', 'strict': False, 'feats': ['ws'], 'flags': ['duplicate-respaced'], 'perm': None, 'skipfix': []},
+    {'k': 'meta', 'stmts': ['Y = X', 'Y = X'], 'var': 'Y = X\nY  =  X', 'strict': True, 'feats': ['ws'], 'flags': [], 'perm': None, 'skipfix': []},
+    {'k': 's', 's': 'Y = X + max({{1, 2}})'},
+    {'k': 's', 's': 'Y = {{1: X}}[1] + Z'},
+    {'k': 'meta', 'stmts': ['Y[1] = X'], 'var': 'Y [1] = X', 'strict': False, 'feats': ['sbl'], 'flags': ['space-before-lhs-index'], 'perm': None, 'skipfix': []},
+    {'k': 'hashq', 'stmts': ["Y = X['a_b']"], 'var': "Y = X['a#b']"},
+    {'k': 'hashq', 'stmts': ['Y = `"_"` * X'], 'var': 'Y = `"#"` * X'},
+    {'k': 'hashq', 'stmts': ['```\nx = "_tag"\n```\nY = X'], 'var': '```\nx = "#tag"\n```\nY = X'},
+    # changes nobody noticed: brackets counted before comments are stripped; blank lines dropped before the continuation logic; \s* -> " *" after a function name
+    {'k': 'meta', 'stmts': ['Y = X', 'Z = (W + 1)'], 'var': 'Y = X  # see (1\nZ = (W +   # and )\n   1)', 'strict': False, 'feats': ['comment', 'cont'], 'flags': [], 'perm': None, 'skipfix': []},
+    {'k': 'meta', 'stmts': ['Y = (X + Z)'], 'var': 'Y = (X +\n\n  # note\n Z)', 'strict': False, 'feats': ['cont', 'blank'], 'flags': [], 'perm': None, 'skipfix': []},
+    {'k': 'meta', 'stmts': ['Y = max(X, Z)'], 'var': 'Y = max\t(X, Z)', 'strict': False, 'feats': ['call'], 'flags': [], 'perm': None, 'skipfix': []},
     # histories inside one process: a text that is the left-hand side of one statement and the right-hand side of another (compact layout),
     # character-identical verbatim statements repeated
     {'k': 'meta', 'stmts': ['Y=C+G', 'GDP=Y'], 'var': 'Y = C + G\nGDP = Y', 'strict': False, 'feats': ['ws'], 'flags': [], 'perm': None, 'skipfix': []},
@@ -255,6 +283,21 @@ def gen(rng, tier):
     for _ in range(40 if tier == 'quick' else 600):
         cases.append(gen_meta(rng, ['sbi'] + rng.sample(FEATS, 2), strict=False))
         cases.append(gen_meta(rng, ['lhsinner', 'inner'], strict=True))
+    for _ in range(30 if tier == 'quick' else 500):
+        cases.append(gen_meta(rng, ['sbl'] + rng.sample(FEATS, 1), strict=True))
+        # the same statement twice: accepted; one copy re-spaced around "=" must not change that
+        c = gen_meta(rng, [], strict=True)
+        s0 = c['stmts'][0]
+        if ' = ' in s0:
+            dup = rng.choice([s0.replace(' = ', '=', 1), s0.replace(' = ', '= ', 1), s0.replace(' = ', ' =', 1), s0.replace(' = ', '  =  ', 1)])
+            fl = [] if dup.replace(' ', '') == s0.replace(' ', '') and '  =  ' in dup else ['duplicate-respaced']
+            cases.append({'k': 'meta', 'stmts': c['stmts'] + [s0], 'var': '\n'.join(c['stmts'] + [dup]), 'strict': False, 'feats': ['ws'], 'flags': fl,
+                          'perm': None, 'skipfix': c['skipfix']})
+        a, b = rng.choice(G.NUMS), rng.choice(G.NUMS)
+        cases.append({'k': 's', 's': '%s = %s + max({{%s, %s}})' % (rng.choice(G.LHSS), rng.choice(G.VARS), a, b)})
+        lab = rng.choice(['a#b', '#', '2000#Q1', 'x # y'])
+        q = rng.choice(["'", '"'])
+        cases.append({'k': 'hashq', 'stmts': ['Y = X[%s%s%s] + Z' % (q, lab.replace('#', '_'), q)], 'var': 'Y = X[%s%s%s] + Z' % (q, lab, q)})
     for _ in range(60 if tier == 'quick' else 1500):
         c = gen_meta(rng, [], strict=False)
         k = rng.randrange(len(c['stmts']) + 1)
@@ -486,6 +529,10 @@ def merge_reference(parsed):
     return list(table.values()) + verb
 
 
+_MASKS = (('space-before-index', ('layout-code-meaning', 'layout-symbols', 'layout-outcome')),
+          ('lhs-index-inner-space', ('layout-outcome',)),
+          ('space-before-lhs-index', ('layout-outcome',)),
+          ('duplicate-respaced', ('layout-outcome',)))
 import keyword as _keyword
 _KWNAME = re.compile(r'(?<![A-Za-z0-9_.])(?:%s)\[' % '|'.join(_keyword.kwlist))
 
@@ -496,8 +543,8 @@ def oracle(case, obs):
 
     def add(clause, what):
         sig = clause
-        for fl in ('space-before-index', 'lhs-index-inner-space'):
-            if fl in flags:
+        for fl, masked in _MASKS:
+            if fl in flags and clause in masked:        # a known finding masks exactly the clauses of its class
                 sig = clause + '|' + fl
                 break
         fails.append({'sig': 'C14|' + sig, 'what': what + ' — case ' + json.dumps({k: case[k] for k in ('stmts', 'var', 's') if k in case})[:260]})
@@ -507,20 +554,29 @@ def oracle(case, obs):
     if 'split' not in obs and all('syms' in p for p in obs['stmts']) and (obs['stmts'] or 'syms' in base):
         ref = merge_reference(obs['stmts'])
         if isinstance(ref, str):
-            if base.get('exc') != ref:
-                add('statements-independent', 'merging the statements gives %s, parsing the script gives %s' % (ref, base.get('exc', 'a symbol list')))
+            if 'exc' not in base:       # which exception is not part of the property: only that the script is rejected
+                add('statements-independent', 'merging the statements fails (%s), parsing the script gives a symbol list' % ref)
         elif 'exc' in base:
             add('statements-independent', 'every statement parses alone but the script raises ' + base['exc'])
-        elif [list(x) for x in base['syms']] != ref:
+        elif sorted(json.dumps(list(x)) for x in base['syms']) != sorted(json.dumps(x) for x in ref):      # as sets: the order of the list is not constrained
             add('statements-independent', 'parse(script) %s differs from the merge of the statement parses %s'
                 % (json.dumps(base['syms'])[:200], json.dumps(ref)[:200]))
     elif case['k'] in ('meta', 'fence') and 'syms' in base and any('exc' in p for p in obs['stmts']):
         add('statements-independent', 'the script parses but a statement alone raises')
     if case['k'] == 'fence':
         # a fence that is never closed: the script is rejected whole (nothing after the fence may be dropped silently)
-        if base.get('exc') != 'ParserError':
-            add('unclosed-fence-accepted', 'a script with a ``` fence that is never closed gives %s instead of ParserError'
-                % (base.get('exc') or 'a symbol list'))
+        if 'exc' not in base:
+            add('unclosed-fence-accepted', 'a script with a ``` fence that is never closed is accepted (it must be rejected)')
+        return fails
+    if case['k'] == 'hashq':
+        # a "#" inside a quoted period label / a backticked fragment / a fenced block is no comment: same outcome as with "_" in its place
+        var = obs['var']
+        if ('exc' in base) != ('exc' in var):
+            fails.append({'sig': 'C14|comment|hash-inside-quotes',
+                          'what': 'with "_" in place of "#" the script is %s, with the "#" (inside quotes / backticks / a fence) it is %s — %s'
+                                  % (base.get('exc', 'accepted'), var.get('exc', 'accepted'), json.dumps(case['var'])[:120])})
+        elif 'syms' in base and _fields(base) != _fields(var):
+            add('comment-hash-symbols', 'symbols differ: %s vs %s' % (_fields(base), _fields(var)))
         return fails
     # ---- layout transformations
     if 'var' in obs:
@@ -548,24 +604,18 @@ def oracle(case, obs):
                 for k in ab:
                     if ab[k] != av[k]:
                         add('layout-code-meaning', 'the generated code differs in meaning: %r vs %r' % (eb[k][1], ev[k][1]))
-                    elif case.get('strict') and eb[k] != ev[k]:
-                        add('layout-strings', 'same gaps non-empty but equation / code strings differ: %r vs %r' % (eb[k], ev[k]))
-    # ---- verbatim fragments and quoted period names are not layout: they reach the code character by character
-    if case['k'] == 'meta' and 'syms' in base:
-        code_of = {x[0]: x[5] for x in base['syms'] if x[1] == 'ENDOGENOUS'}
-        for st in case['stmts']:
-            code = code_of.get(re.match(r'[A-Za-z_][A-Za-z_0-9]*', st).group(0)) if re.match(r'[A-Za-z_]', st) else None
-            for frag in re.findall(r'`([^`\n]+)`', st) + re.findall(r"\[\s*('[^'\n]*'|\"[^\"\n]*\")\s*\]", st):
-                if frag[0] not in '\'"' and re.fullmatch(r'\s*[+-]?[0-9]+\s*', frag):
-                    continue
-                if code is None or frag not in code:
-                    add('verbatim-preserved', 'the fragment %r of %r does not appear in the code %r' % (frag, st, code))
     # ---- the normal form is a fixed point
     for ent in obs.get('fix', []):
         if '=' not in ent['eq']:
             fails.append({'sig': 'C14|fixed-point|equation-without-equals',
                           'what': 'the parser produced the normalised equation %r without "=" (an index bracket spanning the "=" of the statement); '
                                   'fed back it is rejected — script %s' % (ent['eq'], json.dumps(case.get('s', ''))[:120])})
+            continue
+        if 'exc' in ent and re.search(r'[{}]', re.sub(r'`[^`]*`|\'[^\']*\'|"[^"]*"', '', ent['eq'])):
+            # literal braces written {{ }} in the script: the normal form holds single braces, which are format fields when read back
+            fails.append({'sig': 'C14|fixed-point|literal-braces',
+                          'what': 'the normalised equation %r contains a literal brace (written doubled in the script); fed back as %r it is rejected with %s'
+                                  % (ent['eq'], ent['fed'], ent['exc'])})
             continue
         if ent.get('exc') == 'ParserError' and _KWNAME.search(re.sub(r'`[^`]*`', '', ent['eq'])):
             # a {parameter} / <error> named like a reserved word: its normal form NAME[t] is read as _INVALID by term_re
